@@ -148,4 +148,517 @@ theorem expand_grow {p : Pool} {o : Nat} {s : Obj} (hi : Inv p) (ho : p.objs o =
             exact hxo (huniq x o t s k' hx ho hk1' hc)
           simp [h1, h2]
 
+theorem expand_nogrow {p : Pool} {o : Nat} {s : Obj} (ho : p.objs o = some s) (added : Nat)
+    (h : s.size + added ≤ s.alloc) : expandBuffer o added p = .ok () p := by
+  simp [expandBuffer, getObj_eq ho, Nat.not_lt.mpr h]
+
+theorem expand_fail {p : Pool} {o : Nat} {s : Obj} (hi : Inv p) (ho : p.objs o = some s) (added : Nat)
+    (hneed : s.size + added > s.alloc) (hfail : p.failAt = some (p.allocs + 1)) :
+    expandBuffer o added p = .throw .badAlloc { p with allocs := p.allocs + 1 } := by
+  have hpos : 0 < s.alloc := by
+    cases hi.mode ho with
+    | stack ha hc => have := cap_pos; omega
+    | heap k blk ha hc hk hl => omega
+  obtain ⟨big, hg, _, _⟩ := growLoop_spec (s.size + added) (s.size + added + 1) s.alloc hpos (by omega) (by omega)
+  simp only [expandBuffer, bind_apply, getObj_eq ho, if_pos hneed, hg, pure_apply, newBlock_fail _ hfail]
+
+/-- the bytes a live stream shows, under the invariant -/
+theorem abs_some {p : Pool} (hi : Inv p) {o : Nat} {s : Obj} (ho : p.objs o = some s) : ∃ b, abs p o = some b ∧ b.length = s.size := by
+  have hsz := hi.sizeLe ho
+  cases hi.mode ho with
+  | stack ha hc => exact ⟨_, abs_stack ho hc, by simp [hi.stackLen ho]; omega⟩
+  | heap k blk ha hc hk hl => exact ⟨_, abs_heap ho hc hk, by simp [hl]; omega⟩
+
+theorem storeAtEnd_ok {p : Pool} {o : Nat} {s : Obj} (hi : Inv p) (ho : p.objs o = some s) (bytes : List Nat)
+    (hroom : s.size + bytes.length ≤ s.alloc) {b : List Nat} (hb : abs p o = some b) :
+    ∃ p', storeAtEnd o bytes p = .ok () p' ∧ Inv p' ∧ abs p' = (abs p).set o (some (b ++ bytes)) ∧ p'.failAt = p.failAt := by
+  have hlen := hi.stackLen ho
+  have hsz := hi.sizeLe ho
+  have hobj := hi.obj; simp only [ObjOk] at hobj; have huniq := hi.uniq; have howned := hi.owned; have hfresh := hi.fresh
+  cases hi.mode ho with
+  | stack ha hc =>
+    have hw : writeUnits s.chars s.size bytes p = .ok () (p.setO o (some { s with stack := overwrite s.stack s.size bytes })) := by
+      have := writeUnits_stack s.size bytes ho (by omega); rwa [← hc] at this
+    have ho2 : (p.setO o (some { s with stack := overwrite s.stack s.size bytes })).objs o = some { s with stack := overwrite s.stack s.size bytes } := by simp
+    simp only [storeAtEnd, bind_apply, getObj_eq ho, hw, getObj_eq ho2, setObj_eq]
+    refine ⟨_, rfl, ?_, ?_, rfl⟩
+    · constructor
+      · intro x t hx
+        simp only [setO_objs] at hx
+        split at hx
+        · cases hx; subst_vars
+          refine ⟨by simp; rw [overwrite_length _ _ _ (by omega)]; exact hlen, by simp; omega, Or.inl ⟨ha, hc⟩⟩
+        · obtain ⟨h1, h2, h3⟩ := hobj x t hx
+          exact ⟨h1, h2, h3⟩
+      · intro o₁ o₂ s₁ s₂ k h1 h2 c1 c2
+        simp only [setO_objs] at h1 h2
+        grind
+      · intro k blk hk
+        simp only [setO_heap] at hk
+        simp only [setO_objs]
+        grind
+      · exact hfresh
+    · funext x
+      by_cases hxo : x = o
+      · subst hxo
+        rw [abs_stack ho hc] at hb; cases hb
+        rw [abs_stack (s := { s with stack := overwrite s.stack s.size bytes, size := s.size + bytes.length }) (by simp) hc]
+        simp [ByteLog.State.set, overwrite_take_end _ _ _ (by omega : s.size ≤ s.stack.length)]
+      · rw [abs_frame hi x (by simp [hxo]) (by intros; rfl)]
+        simp [ByteLog.State.set, hxo]
+  | heap k blk ha hc hk hl =>
+    have hw : writeUnits s.chars s.size bytes p = .ok () (p.setH k (some (overwrite blk s.size bytes))) := by
+      have := writeUnits_heap s.size bytes hk (by omega); rwa [← hc] at this
+    have ho2 : (p.setH k (some (overwrite blk s.size bytes))).objs o = some s := ho
+    simp only [storeAtEnd, bind_apply, getObj_eq ho, hw, getObj_eq ho2, setObj_eq]
+    refine ⟨_, rfl, ?_, ?_, rfl⟩
+    · constructor
+      · intro x t hx
+        simp only [setO_objs, setH_objs] at hx
+        split at hx
+        · cases hx; subst_vars
+          refine ⟨hlen, by simp; omega, Or.inr ⟨ha, k, _, hc, by simp; rfl, ?_⟩⟩
+          rw [overwrite_length _ _ _ (by omega)]; exact hl
+        · obtain ⟨h1, h2, h3⟩ := hobj x t hx
+          refine ⟨h1, h2, ?_⟩
+          rcases h3 with h3 | ⟨h3, k', blk', hk1', hk2', hk3'⟩
+          · exact Or.inl h3
+          · have h2 : k' ≠ k := by
+              intro h; subst h
+              have := huniq x o t s k' hx ho hk1' hc
+              contradiction
+            exact Or.inr ⟨h3, k', blk', hk1', by simp [h2, hk2'], hk3'⟩
+      · intro o₁ o₂ s₁ s₂ k h1 h2 c1 c2
+        simp only [setO_objs, setH_objs] at h1 h2
+        grind
+      · intro k blk hk
+        simp only [setO_heap, setH_heap] at hk
+        simp only [setO_objs, setH_objs]
+        grind
+      · intro k' hk'
+        simp only [setO_heap, setH_heap]
+        have := hfresh k' hk'
+        have := hi.lt_next hk
+        grind
+    · funext x
+      by_cases hxo : x = o
+      · subst hxo
+        rw [abs_heap ho hc hk] at hb; cases hb
+        rw [abs_heap (k := k) (s := { s with size := s.size + bytes.length }) (blk := overwrite blk s.size bytes) (by simp) hc (by simp)]
+        simp [ByteLog.State.set, overwrite_take_end _ _ _ (by omega : s.size ≤ blk.length)]
+      · rw [abs_frame hi x (by simp [hxo])]
+        · simp [ByteLog.State.set, hxo]
+        · intro t k' hx hc'
+          have h2 : k' ≠ k := by
+            intro h; subst h
+            exact hxo (huniq x o t s k' hx ho hc' hc)
+          simp [h2]
+
+theorem set_same (st : ByteLog.State) (o : Nat) (v : Option (List Nat)) (h : st o = v) : st.set o v = st := by
+  funext x; simp only [ByteLog.State.set]; split
+  · rename_i hx; rw [hx, h]
+  · rfl
+
+/-- `expand_buffer(n); store; m_size += n` — what `append` and `append_char` do after their early return -/
+theorem growStore_spec {p : Pool} {o : Nat} {s : Obj} (hi : Inv p) (ho : p.objs o = some s) {b : List Nat} (hb : abs p o = some b)
+    (bytes : List Nat) :
+    (∃ p', (expandBuffer o bytes.length >>= fun _ => storeAtEnd o bytes) p = .ok () p' ∧ Inv p' ∧
+        abs p' = (abs p).set o (some (b ++ bytes)) ∧ p'.failAt = p.failAt)
+    ∨ ((expandBuffer o bytes.length >>= fun _ => storeAtEnd o bytes) p = .throw .badAlloc { p with allocs := p.allocs + 1 } ∧
+        p.failAt = some (p.allocs + 1)) := by
+  by_cases hneed : s.size + bytes.length > s.alloc
+  · by_cases hfail : p.failAt = some (p.allocs + 1)
+    · right
+      simp only [bind_apply, expand_fail hi ho _ hneed hfail]
+      exact ⟨trivial, hfail⟩
+    · left
+      obtain ⟨p1, h1, hi1, ha1, ⟨s1, ho1, hs1, hr1⟩, hf1⟩ := expand_grow hi ho bytes.length hneed hfail
+      obtain ⟨p2, h2, hi2, ha2, hf2⟩ := storeAtEnd_ok hi1 ho1 bytes (by omega) (b := b) (by rw [ha1]; exact hb)
+      refine ⟨p2, ?_, hi2, ?_, hf2.trans hf1⟩
+      · simp only [bind_apply, h1, h2]
+      · rw [ha2, ha1]
+  · left
+    obtain ⟨p2, h2, hi2, ha2, hf2⟩ := storeAtEnd_ok hi ho bytes (by omega) hb
+    refine ⟨p2, ?_, hi2, ha2, hf2⟩
+    simp only [bind_apply, expand_nogrow ho _ (by omega : s.size + bytes.length ≤ s.alloc), h2]
+
+theorem append_spec {p : Pool} {o : Nat} {s : Obj} (hi : Inv p) (ho : p.objs o = some s) {b : List Nat} (hb : abs p o = some b)
+    (bytes : List Nat) :
+    (∃ p', append o bytes p = .ok () p' ∧ Inv p' ∧ abs p' = (abs p).set o (some (b ++ bytes)) ∧ p'.failAt = p.failAt)
+    ∨ (append o bytes p = .throw .badAlloc { p with allocs := p.allocs + 1 } ∧ p.failAt = some (p.allocs + 1)) := by
+  by_cases h0 : bytes.length = 0
+  · left
+    have : bytes = [] := List.eq_nil_of_length_eq_zero h0
+    subst this
+    refine ⟨p, by simp [append], hi, ?_, rfl⟩
+    rw [List.append_nil, set_same _ _ _ hb]
+  · have : append o bytes = (expandBuffer o bytes.length >>= fun _ => storeAtEnd o bytes) := by
+      simp [append, h0]
+    rw [this]
+    exact growStore_spec hi ho hb bytes
+
+theorem appendChar_spec {p : Pool} {o : Nat} {s : Obj} (hi : Inv p) (ho : p.objs o = some s) {b : List Nat} (hb : abs p o = some b)
+    (ch n : Nat) :
+    (∃ p', appendChar o ch n p = .ok () p' ∧ Inv p' ∧ abs p' = (abs p).set o (some (b ++ List.replicate n ch)) ∧ p'.failAt = p.failAt)
+    ∨ (appendChar o ch n p = .throw .badAlloc { p with allocs := p.allocs + 1 } ∧ p.failAt = some (p.allocs + 1)) := by
+  by_cases h0 : n = 0
+  · left
+    subst h0
+    refine ⟨p, by simp [appendChar], hi, ?_, rfl⟩
+    rw [List.replicate_zero, List.append_nil, set_same _ _ _ hb]
+  · have : appendChar o ch n = (expandBuffer o (List.replicate n ch).length >>= fun _ => storeAtEnd o (List.replicate n ch)) := by
+      simp [appendChar, h0]
+    rw [this]
+    exact growStore_spec hi ho hb _
+
+/-- changing only `m_size` (downwards) -/
+theorem setSize_ok {p : Pool} {o : Nat} {s : Obj} (hi : Inv p) (ho : p.objs o = some s) {b : List Nat} (hb : abs p o = some b)
+    (n : Nat) (hn : n ≤ s.size) :
+    Inv (p.setO o (some { s with size := n })) ∧ abs (p.setO o (some { s with size := n })) = (abs p).set o (some (b.take n)) := by
+  have hlen := hi.stackLen ho
+  have hsz := hi.sizeLe ho
+  have hobj := hi.obj; simp only [ObjOk] at hobj; have huniq := hi.uniq; have howned := hi.owned; have hfresh := hi.fresh
+  constructor
+  · constructor
+    · intro x t hx
+      simp only [setO_objs] at hx
+      split at hx
+      · cases hx; subst_vars
+        obtain ⟨h1, h2, h3⟩ := hobj _ _ ho
+        exact ⟨h1, by simp; omega, h3⟩
+      · exact hobj x t hx
+    · intro o₁ o₂ s₁ s₂ k h1 h2 c1 c2
+      simp only [setO_objs] at h1 h2
+      grind
+    · intro k blk hk
+      simp only [setO_heap] at hk
+      simp only [setO_objs]
+      grind
+    · exact hfresh
+  · funext x
+    by_cases hxo : x = o
+    · subst hxo
+      cases hi.mode ho with
+      | stack ha hc =>
+        rw [abs_stack ho hc] at hb; cases hb
+        rw [abs_stack (s := { s with size := n }) (by simp) hc]
+        simp [ByteLog.State.set, List.take_take, Nat.min_eq_left hn]
+      | heap k blk ha hc hk hl =>
+        rw [abs_heap ho hc hk] at hb; cases hb
+        rw [abs_heap (s := { s with size := n }) (by simp) hc (show (p.setO x _).heap k = some blk from hk)]
+        simp [ByteLog.State.set, List.take_take, Nat.min_eq_left hn]
+    · rw [abs_frame hi x (by simp [hxo]) (by intros; rfl)]
+      simp [ByteLog.State.set, hxo]
+
+theorem truncate_spec {p : Pool} {o : Nat} {s : Obj} (hi : Inv p) (ho : p.objs o = some s) {b : List Nat} (hb : abs p o = some b) (n : Nat) :
+    ∃ p', truncate o n p = .ok () p' ∧ Inv p' ∧ abs p' = (abs p).set o (some (b.take n)) ∧ p'.failAt = p.failAt := by
+  obtain ⟨b', hb', hbl⟩ := abs_some hi ho
+  rw [hb] at hb'; cases hb'
+  by_cases h : n < s.size
+  · obtain ⟨h1, h2⟩ := setSize_ok hi ho hb n (by omega)
+    exact ⟨_, by simp only [truncate, bind_apply, getObj_eq ho, if_pos h, setObj_eq], h1, h2, rfl⟩
+  · refine ⟨p, by simp [truncate, getObj_eq ho, h], hi, ?_, rfl⟩
+    rw [List.take_of_length_le (by omega), set_same _ _ _ hb]
+
+theorem erase_spec {p : Pool} {o : Nat} {s : Obj} (hi : Inv p) (ho : p.objs o = some s) {b : List Nat} (hb : abs p o = some b) (n : Nat) :
+    ∃ p', erase o n p = .ok () p' ∧ Inv p' ∧ abs p' = (abs p).set o (some (b.take (b.length - n))) ∧ p'.failAt = p.failAt := by
+  obtain ⟨b', hb', hbl⟩ := abs_some hi ho
+  rw [hb] at hb'; cases hb'
+  by_cases h : n < s.size
+  · obtain ⟨h1, h2⟩ := setSize_ok hi ho hb (s.size - n) (by omega)
+    refine ⟨_, by simp only [erase, bind_apply, getObj_eq ho, if_pos h, setObj_eq], h1, ?_, rfl⟩
+    rw [h2, hbl]
+  · obtain ⟨h1, h2⟩ := setSize_ok hi ho hb 0 (by omega)
+    refine ⟨_, by simp only [erase, bind_apply, getObj_eq ho, if_neg h, setObj_eq], h1, ?_, rfl⟩
+    rw [h2, hbl, Nat.sub_eq_zero_of_le (by omega)]
+
+theorem setO_setO (p : Pool) (o : Nat) (a b : Option Obj) : (p.setO o a).setO o b = p.setO o b := by
+  simp only [Pool.setO]; congr; funext x; split <;> rfl
+
+/-- the fields of a default-constructed stream (whatever its in-object array holds) -/
+def freshObj (o : Nat) (stack : List Nat) : Obj := { chars := .stack o, alloc := stackStringSize, size := 0, stack := stack }
+
+/-- a vacant slot or a stream in in-object mode is (re)initialised -/
+theorem fresh_ok {p : Pool} {o : Nat} (hi : Inv p) (hv : ∀ a, p.objs o = some a → a.chars = .stack o) (st : List Nat) (hst : st.length = stackStringSize) :
+    Inv (p.setO o (some (freshObj o st))) ∧ abs (p.setO o (some (freshObj o st))) = (abs p).set o (some []) := by
+  have hobj := hi.obj; simp only [ObjOk] at hobj; have huniq := hi.uniq; have howned := hi.owned; have hfresh := hi.fresh
+  constructor
+  · constructor
+    · intro x t hx
+      simp only [setO_objs] at hx
+      split at hx
+      · cases hx; subst_vars
+        exact ⟨hst, by simp [freshObj], Or.inl ⟨rfl, rfl⟩⟩
+      · exact hobj x t hx
+    · intro o₁ o₂ s₁ s₂ k h1 h2 c1 c2
+      simp only [setO_objs] at h1 h2
+      simp only [freshObj] at h1 h2
+      grind
+    · intro k blk hk
+      simp only [setO_heap] at hk
+      simp only [setO_objs]
+      obtain ⟨o', s', h1, h2⟩ := howned k blk hk
+      have : o' ≠ o := by
+        intro h; subst h
+        rw [hv s' h1] at h2; cases h2
+      exact ⟨o', s', by simp [this, h1], h2⟩
+    · exact hfresh
+  · funext x
+    by_cases hxo : x = o
+    · subst hxo
+      rw [abs_stack (s := freshObj x st) (by simp) rfl]
+      simp [ByteLog.State.set, freshObj]
+    · rw [abs_frame hi x (by simp [hxo]) (by intros; rfl)]
+      simp [ByteLog.State.set, hxo]
+
+/-- a stream in in-object mode disappears -/
+theorem drop_ok {p : Pool} {o : Nat} (hi : Inv p) (hv : ∀ a, p.objs o = some a → a.chars = .stack o) :
+    Inv (p.setO o none) ∧ abs (p.setO o none) = (abs p).set o none := by
+  have hobj := hi.obj; simp only [ObjOk] at hobj; have huniq := hi.uniq; have howned := hi.owned; have hfresh := hi.fresh
+  constructor
+  · constructor
+    · intro x t hx
+      simp only [setO_objs] at hx
+      split at hx
+      · cases hx
+      · exact hobj x t hx
+    · intro o₁ o₂ s₁ s₂ k h1 h2 c1 c2
+      simp only [setO_objs] at h1 h2
+      grind
+    · intro k blk hk
+      simp only [setO_heap] at hk
+      simp only [setO_objs]
+      obtain ⟨o', s', h1, h2⟩ := howned k blk hk
+      have : o' ≠ o := by
+        intro h; subst h
+        rw [hv s' h1] at h2; cases h2
+      exact ⟨o', s', by simp [this, h1], h2⟩
+    · exact hfresh
+  · funext x
+    by_cases hxo : x = o
+    · subst hxo
+      rw [abs_none (by simp)]
+      simp [ByteLog.State.set]
+    · rw [abs_frame hi x (by simp [hxo]) (by intros; rfl)]
+      simp [ByteLog.State.set, hxo]
+
+/-- a stream in heap mode gives its block back and becomes a fresh stream -/
+theorem release_ok {p : Pool} {o k : Nat} {a : Obj} {blk : List Nat} (hi : Inv p) (ho : p.objs o = some a)
+    (hc : a.chars = .heap k) (hk : p.heap k = some blk) :
+    Inv ((p.setH k none).setO o (some (freshObj o a.stack))) ∧
+    abs ((p.setH k none).setO o (some (freshObj o a.stack))) = (abs p).set o (some []) := by
+  have hlen := hi.stackLen ho
+  have hobj := hi.obj; simp only [ObjOk] at hobj; have huniq := hi.uniq; have howned := hi.owned; have hfresh := hi.fresh
+  constructor
+  · constructor
+    · intro x t hx
+      simp only [setO_objs, setH_objs] at hx
+      split at hx
+      · cases hx; subst_vars
+        exact ⟨hlen, by simp [freshObj], Or.inl ⟨rfl, rfl⟩⟩
+      · rename_i hxo
+        obtain ⟨h1, h2, h3⟩ := hobj x t hx
+        refine ⟨h1, h2, ?_⟩
+        rcases h3 with h3 | ⟨h3, k', blk', hk1', hk2', hk3'⟩
+        · exact Or.inl h3
+        · have h2 : k' ≠ k := by
+            intro h; subst h
+            exact hxo (huniq x o t a k' hx ho hk1' hc)
+          exact Or.inr ⟨h3, k', blk', hk1', by simp [h2, hk2'], hk3'⟩
+    · intro o₁ o₂ s₁ s₂ k h1 h2 c1 c2
+      simp only [setO_objs, setH_objs, freshObj] at h1 h2
+      grind
+    · intro k' blk' hk'
+      simp only [setO_heap, setH_heap] at hk'
+      simp only [setO_objs, setH_objs]
+      split at hk'
+      · cases hk'
+      · rename_i hkk
+        obtain ⟨o', s', h1, h2⟩ := howned k' blk' hk'
+        have : o' ≠ o := by
+          intro h; subst h
+          rw [ho] at h1; cases h1
+          rw [hc] at h2; cases h2; exact hkk rfl
+        exact ⟨o', s', by simp [this, h1], h2⟩
+    · intro k' hk'
+      simp only [setO_heap, setH_heap]
+      have := hfresh k' hk'
+      split <;> simp_all
+  · funext x
+    by_cases hxo : x = o
+    · subst hxo
+      rw [abs_stack (s := freshObj x a.stack) (by simp) rfl]
+      simp [ByteLog.State.set, freshObj]
+    · rw [abs_frame hi x (by simp [hxo])]
+      · simp [ByteLog.State.set, hxo]
+      · intro t k' hx hc'
+        have h2 : k' ≠ k := by
+          intro h; subst h
+          exact hxo (huniq x o t a k' hx ho hc' hc)
+        simp [h2]
+
+theorem movedFrom_repaired (src : Nat) (mv : Obj) : movedFrom .repaired src mv = freshObj src mv.stack := rfl
+
+/-- what both (repaired) move operations do once the target owns no block: the target takes the source's
+    fields (and its block, in heap mode), the source becomes a fresh stream -/
+theorem transfer_ok {p : Pool} {o src : Nat} {mv : Obj} (hi : Inv p) (hs : p.objs src = some mv) (hne : o ≠ src)
+    (hv : ∀ a, p.objs o = some a → a.chars = .stack o) {b : List Nat} (hb : abs p src = some b) :
+    Inv ((p.setO o (some { chars := if mv.isHeap then mv.chars else .stack o, alloc := mv.alloc, size := mv.size, stack := mv.stack })).setO
+          src (some (freshObj src mv.stack))) ∧
+    abs ((p.setO o (some { chars := if mv.isHeap then mv.chars else .stack o, alloc := mv.alloc, size := mv.size, stack := mv.stack })).setO
+          src (some (freshObj src mv.stack))) = ((abs p).set o (some b)).set src (some []) := by
+  have hlen := hi.stackLen hs
+  have hsz := hi.sizeLe hs
+  have hobj := hi.obj; simp only [ObjOk] at hobj; have huniq := hi.uniq; have howned := hi.owned; have hfresh := hi.fresh
+  cases hi.mode hs with
+  | stack ha hc =>
+    have hnh : mv.isHeap = false := by simp [Obj.isHeap, ha]
+    simp only [hnh, Bool.false_eq_true, if_false]
+    constructor
+    · constructor
+      · intro x t hx
+        simp only [setO_objs] at hx
+        split at hx
+        · cases hx; subst_vars
+          exact ⟨hlen, by simp [freshObj], Or.inl ⟨rfl, rfl⟩⟩
+        · split at hx
+          · cases hx; subst_vars
+            exact ⟨hlen, hsz, Or.inl ⟨ha, rfl⟩⟩
+          · exact hobj x t hx
+      · intro o₁ o₂ s₁ s₂ k h1 h2 c1 c2
+        simp only [setO_objs, freshObj] at h1 h2
+        grind
+      · intro k blk hk
+        simp only [setO_heap] at hk
+        simp only [setO_objs]
+        obtain ⟨o', s', h1, h2⟩ := howned k blk hk
+        have h3 : o' ≠ o := by
+          intro h; subst h
+          rw [hv s' h1] at h2; cases h2
+        have h4 : o' ≠ src := by
+          intro h; subst h
+          rw [hs] at h1; cases h1
+          rw [hc] at h2; cases h2
+        exact ⟨o', s', by simp [h3, h4, h1], h2⟩
+      · exact hfresh
+    · funext x
+      rw [abs_stack hs hc] at hb; cases hb
+      by_cases hxs : x = src
+      · subst hxs
+        rw [abs_stack (s := freshObj x mv.stack) (by simp) rfl]
+        simp [ByteLog.State.set, freshObj]
+      · by_cases hxo : x = o
+        · subst hxo
+          rw [abs_stack (s := { chars := .stack x, alloc := mv.alloc, size := mv.size, stack := mv.stack }) (by simp [hxs]) rfl]
+          simp [ByteLog.State.set, hxs]
+        · rw [abs_frame hi x (by simp [hxo, hxs]) (by intros; rfl)]
+          simp [ByteLog.State.set, hxo, hxs]
+  | heap k blk ha hc hk hl =>
+    have hnh : mv.isHeap = true := by simp [Obj.isHeap, ha]
+    simp only [hnh, if_true]
+    constructor
+    · constructor
+      · intro x t hx
+        simp only [setO_objs] at hx
+        split at hx
+        · cases hx; subst_vars
+          exact ⟨hlen, by simp [freshObj], Or.inl ⟨rfl, rfl⟩⟩
+        · split at hx
+          · cases hx; subst_vars
+            exact ⟨hlen, hsz, Or.inr ⟨ha, k, blk, hc, hk, hl⟩⟩
+          · exact hobj x t hx
+      · intro o₁ o₂ s₁ s₂ k' h1 h2 c1 c2
+        simp only [setO_objs, freshObj] at h1 h2
+        have := huniq o₁ src
+        have := huniq o₂ src
+        have := huniq o₁ o₂
+        grind
+      · intro k' blk' hk'
+        simp only [setO_heap] at hk'
+        simp only [setO_objs]
+        obtain ⟨o', s', h1, h2⟩ := howned k' blk' hk'
+        have h3 : o' ≠ o := by
+          intro h; subst h
+          rw [hv s' h1] at h2; cases h2
+        by_cases h4 : o' = src
+        · subst h4
+          rw [hs] at h1; cases h1
+          rw [hc] at h2; cases h2
+          exact ⟨o, _, by simp [hne], hc⟩
+        · exact ⟨o', s', by simp [h3, h4, h1], h2⟩
+      · exact hfresh
+    · funext x
+      rw [abs_heap hs hc hk] at hb; cases hb
+      by_cases hxs : x = src
+      · subst hxs
+        rw [abs_stack (s := freshObj x mv.stack) (by simp) rfl]
+        simp [ByteLog.State.set, freshObj]
+      · by_cases hxo : x = o
+        · subst hxo
+          rw [abs_heap (s := { chars := mv.chars, alloc := mv.alloc, size := mv.size, stack := mv.stack }) (by simp [hxs]) hc
+            (show ((p.setO x _).setO src _).heap k = some blk from hk)]
+          simp [ByteLog.State.set, hxs]
+        · rw [abs_frame hi x (by simp [hxo, hxs]) (by intros; rfl)]
+          simp [ByteLog.State.set, hxo, hxs]
+
+theorem abs_dead {p : Pool} {o : Nat} : abs p o = none ↔ p.objs o = none := by
+  simp only [abs]; split <;> simp_all
+
+theorem ctor_spec {p : Pool} {o : Nat} (hi : Inv p) (hd : p.objs o = none) :
+    ∃ p', ctor o p = .ok () p' ∧ Inv p' ∧ abs p' = (abs p).set o (some []) ∧ p'.failAt = p.failAt := by
+  obtain ⟨h1, h2⟩ := fresh_ok hi (o := o) (by intro a ha; rw [hd] at ha; cases ha) (List.replicate stackStringSize 0xCD) (by simp)
+  exact ⟨_, by simp only [ctor, bind_apply, requireDead_eq hd, setObj_eq]; rfl, h1, h2, rfl⟩
+
+theorem dtor_spec {p : Pool} {o : Nat} {s : Obj} (hi : Inv p) (ho : p.objs o = some s) :
+    ∃ p', dtor o p = .ok () p' ∧ Inv p' ∧ abs p' = (abs p).set o none ∧ p'.failAt = p.failAt := by
+  cases hi.mode ho with
+  | stack ha hc =>
+    have hnh : s.isHeap = false := by simp [Obj.isHeap, ha]
+    obtain ⟨h1, h2⟩ := drop_ok hi (o := o) (by intro a h; rw [ho] at h; cases h; exact hc)
+    exact ⟨_, by simp only [dtor, bind_apply, getObj_eq ho, hnh, Bool.false_eq_true, if_false, dropObj_eq], h1, h2, rfl⟩
+  | heap k blk ha hc hk hl =>
+    have hnh : s.isHeap = true := by simp [Obj.isHeap, ha]
+    obtain ⟨h1, h2⟩ := release_ok hi ho hc hk
+    obtain ⟨h3, h4⟩ := drop_ok h1 (o := o) (by intro a h; simp at h; cases h; rfl)
+    rw [setO_setO] at h3 h4
+    refine ⟨_, by simp only [dtor, bind_apply, getObj_eq ho, hnh, if_true, hc, deleteBlock_eq hk, dropObj_eq], h3, ?_, rfl⟩
+    rw [h4, h2]
+    funext x; simp only [ByteLog.State.set]; split <;> rfl
+
+theorem moveCtor_spec {p : Pool} {o src : Nat} {mv : Obj} (hi : Inv p) (hd : p.objs o = none) (hs : p.objs src = some mv)
+    {b : List Nat} (hb : abs p src = some b) :
+    ∃ p', moveCtor .repaired o src p = .ok () p' ∧ Inv p' ∧ abs p' = ((abs p).set o (some b)).set src (some []) ∧
+      p'.failAt = p.failAt ∧ p'.objs src = some (freshObj src mv.stack) := by
+  have hne : o ≠ src := by intro h; subst h; rw [hd] at hs; cases hs
+  obtain ⟨h1, h2⟩ := transfer_ok hi hs hne (by intro a ha; rw [hd] at ha; cases ha) hb
+  have hs' : (p.setO o (some { chars := if mv.isHeap then mv.chars else .stack o, alloc := mv.alloc, size := mv.size, stack := mv.stack })).objs src = some mv := by
+    simp [Ne.symm hne, hs]
+  refine ⟨_, ?_, h1, h2, rfl, by simp⟩
+  simp only [moveCtor, bind_apply, requireDead_eq hd, getObj_eq hs, setObj_eq, movedFrom_repaired]
+
+theorem moveAssign_spec {p : Pool} {o src : Nat} {a mv : Obj} (hi : Inv p) (ho : p.objs o = some a) (hs : p.objs src = some mv)
+    (hne : o ≠ src) {b : List Nat} (hb : abs p src = some b) :
+    ∃ p', moveAssign .repaired o src p = .ok () p' ∧ Inv p' ∧ abs p' = ((abs p).set o (some b)).set src (some []) ∧
+      p'.failAt = p.failAt ∧ p'.objs src = some (freshObj src mv.stack) := by
+  cases hi.mode ho with
+  | stack ha hc =>
+    have hnh : a.isHeap = false := by simp [Obj.isHeap, ha]
+    obtain ⟨h1, h2⟩ := transfer_ok hi hs hne (by intro a' h; rw [ho] at h; cases h; exact hc) hb
+    refine ⟨_, ?_, h1, h2, rfl, by simp⟩
+    simp only [moveAssign, bind_apply, getObj_eq ho, hnh, Bool.false_eq_true, if_false, getObj_eq hs, setObj_eq, movedFrom_repaired]
+  | heap k blk ha hc hk hl =>
+    have hnh : a.isHeap = true := by simp [Obj.isHeap, ha]
+    obtain ⟨h1, h2⟩ := release_ok hi ho hc hk
+    have hs1 : ((p.setH k none).setO o (some (freshObj o a.stack))).objs src = some mv := by simp [Ne.symm hne, hs]
+    have hb1 : abs ((p.setH k none).setO o (some (freshObj o a.stack))) src = some b := by
+      rw [h2]; simp [ByteLog.State.set, Ne.symm hne, hb]
+    obtain ⟨h3, h4⟩ := transfer_ok h1 hs1 hne (by intro a' h; simp at h; cases h; rfl) hb1
+    rw [setO_setO] at h3 h4
+    have hs2 : (p.setH k none).objs src = some mv := hs
+    refine ⟨_, ?_, h3, ?_, rfl, by simp⟩
+    · simp only [moveAssign, bind_apply, getObj_eq ho, hnh, if_true, hc, deleteBlock_eq hk, getObj_eq hs2, setObj_eq, movedFrom_repaired]
+    · rw [h4, h2]
+      funext x; simp only [ByteLog.State.set]; split <;> (try rfl)
+      split <;> rfl
+
 end StVerif.Stream
